@@ -143,6 +143,27 @@ CATALOGUE = [
     ("phantom-components-not-copied", "ttLib/ttGlyphSet.py", "        glyph.components = [copy(comp) for comp in glyph.components]  # Shallow copy", "        glyph.components = list(glyph.components)", "C05", "SetCoordinatesPhantoms", "alarm"),
     ("glyphset-shift-inside-composites", "ttLib/ttGlyphSet.py", "            if depth:\n                offset = 0  # Offset should only apply at top-level\n\n            glyph.draw(pen, self.glyphSet.glyfTable, offset)", "            glyph.draw(pen, self.glyphSet.glyfTable, offset)", "C05", "GlyphSetMetricsAndShift", "alarm"),
     ("glyphset-hvar-by-gid-always", "ttLib/ttGlyphSet.py", "                if glyphSet.hvarTable.AdvWidthMap is None\n                else glyphSet.hvarTable.AdvWidthMap.mapping[glyphName]", "                if True\n                else glyphSet.hvarTable.AdvWidthMap.mapping[glyphName]", "C05", "GlyphSetMetricsAndShift", "alarm"),
+    ("vhvar-implicit-index-zero", "varLib/instancer/__init__.py", "                    varIdx = varfont.getGlyphID(glyphName)", "                    varIdx = 0", "C08", "InstantiateVHVAR", "alarm"),
+    ("mvar-negative-deltas-skipped", "varLib/instancer/__init__.py", "        if delta != 0:\n            setattr(\n                varfont[tableTag],", "        if delta > 0:\n            setattr(\n                varfont[tableTag],", "C08", "InstantiateMVAR", "alarm"),
+    ("varstore-adapter-sorted-regions", "varLib/instancer/__init__.py", "            varDataRegions = (regions[i] for i in varData.VarRegionIndex)", "            varDataRegions = (regions[i] for i in sorted(varData.VarRegionIndex))", "C08", "TupleVarStoreAdapterRoundTrip", "alarm"),
+    ("fvar-instance-range-open-at-minimum", "varLib/instancer/__init__.py", "            if coord < axisRange.minimum or coord > axisRange.maximum:\n                return False\n    return True", "            if coord <= axisRange.minimum or coord > axisRange.maximum:\n                return False\n    return True", "C08", "InstantiateFvar", "alarm"),
+    ("avar-instancing-wrong-renormalisation", "varLib/instancer/__init__.py", "                toCoord = mappedAxisLimit.renormalizeValue(toCoord)", "                toCoord = axisRange.renormalizeValue(toCoord)", "C08", "InstantiateAvarV1", "alarm"),
+    ("blend-zero-regions-wipes-stack", "misc/psCharStrings.py", "                len(self.operandStack) - (numOps - numBlends) :", "                -(numOps - numBlends) :", "C05", "T2Blend", "alarm"),
+    ("woff2-hmtx-flag-bits-swapped", "ttLib/woff2.py", "        if not hasLsbArray:\n            flags |= 1 << 0", "        if not hasLsbArray:\n            flags |= 1 << 1", "C04", "WOFF2HmtxTransformRoundTrip", "alarm"),
+    ("pairpos2-class2-truncated", "subset/__init__.py", "            c.Class2Record = [c.Class2Record[i] for i in class2_map]", "            c.Class2Record = c.Class2Record[: len(class2_map)]", "C07", "PairPosFormat2Subset", "alarm"),
+    ("markbase-classes-not-renumbered", "subset/__init__.py", "        for m in self.MarkArray.MarkRecord:\n            m.Class = class_indices.index(m.Class)\n        for b in self.BaseArray.BaseRecord:", "        for b in self.BaseArray.BaseRecord:", "C07", "MarkBasePosSubset", "alarm"),
+    ("context2-unreachable-rulesets-kept", "subset/__init__.py", "        rss = [rss if i in indices else None for i, rss in enumerate(rss)]", "        rss = list(rss)", "C07", "ContextFormat2Subset", "green"),
+    ("context2-rule-classes-not-remapped", "subset/__init__.py", "                        [klass_map.index(k) for k in klist]", "                        [k for k in klist]", "C07", "ContextFormat2Subset", "alarm"),
+    ("ligature-closure-any-component", "subset/__init__.py", "[seq.LigGlyph for seq in seqs if all(c in s.glyphs for c in seq.Component)]", "[seq.LigGlyph for seq in seqs if any(c in s.glyphs for c in seq.Component)]", "C07", "LigatureSubstClosure", "alarm"),
+    ("langsys-required-feature-not-renumbered", "subset/__init__.py", "        self.ReqFeatureIndex = feature_indices.index(self.ReqFeatureIndex)", "        self.ReqFeatureIndex = self.ReqFeatureIndex", "C07", "LangSysSubsetFeatures", "alarm"),
+    ("dflt-default-langsys-dropped", "subset/__init__.py", '        if s.Script.subset_features(feature_indices, s.ScriptTag == "DFLT")', "        if s.Script.subset_features(feature_indices, False)", "C07", "ScriptListSubsetFeatures", "alarm"),
+    ("cmap-format12-sibling-by-keys-only", "subset/__init__.py", "            and table_plat3_enc1[t.language].cmap == t.cmap", "            and table_plat3_enc1[t.language].cmap.keys() == t.cmap.keys()", "C07", "CmapSubset", "alarm"),
+    ("gdef-null-mark-set", "subset/__init__.py", "            i for i, c in enumerate(markGlyphSets.Coverage) if c and c.glyphs", "            i for i, c in enumerate(markGlyphSets.Coverage) if c.glyphs", "C07", "GDEFSubset", "alarm"),
+    ("gvar-glyph-padding-by-data-only", "ttLib/tables/_g_v_a_r.py", "    if (offsetToData + len(data)) % 2 != 0:", "    if len(data) % 2 != 0:", "C02", "GvarCompileGlyphLayout", "alarm"),
+    ("gvar-short-offsets-limit", "ttLib/tables/_g_v_a_r.py", "        if max(offsets) <= 0xFFFF * 2:", "        if max(offsets) <= 0xFFFF * 2 + 2:", "C02", "GvarOffsetsRoundTrip", "alarm"),
+    ("name-records-unsorted", "ttLib/tables/_n_a_m_e.py", "        names.sort()  # sort according to the spec; see NameRecord.__lt__()", "        pass", "C02", "NameTableRoundTrip", "alarm"),
+    ("hdmx-widths-in-dict-order", "ttLib/tables/_h_d_m_x.py", "            for glyphName in glyphOrder:\n                width = widths[glyphName]", "            for glyphName in widths:\n                width = widths[glyphName]", "C02", "HdmxRoundTrip", "alarm"),
+    ("meta-offsets-not-advanced", "ttLib/tables/_m_e_t_a.py", "            dataOffset += len(data)", "            dataOffset += 0", "C02", "MetaRoundTrip", "alarm"),
     ("closure-memo-subset-spelling", "subset/__init__.py", "    if cur_glyphs.issubset(covered):\n        return\n    covered.update(cur_glyphs)\n\n    for st in self.SubTable:", "    if cur_glyphs <= covered:\n        return\n    covered.update(cur_glyphs)\n\n    for st in self.SubTable:", "C07", "LookupClosureMemo", "green"),
 ]
 
